@@ -915,7 +915,7 @@ def o_c12(recs):
         msg = st.argv[2] if len(st.argv) == 3 and st.argv[1] == "-m" else None
         if msg is not None:
             msg = msg if isinstance(msg, bytes) else msg.encode()
-            if b"\r" not in msg and c["message"] != msg + b"\n":
+            if c["message"] != msg + b"\n":
                 bad.append((i, "stored message %r, given %r" % (c["message"][:80], msg[:80])))
     return bad + o_log_entries(recs, "C12")
 
@@ -927,7 +927,7 @@ def log_expected(b, hex_ids):
     for h in hex_ids:
         c = b.commit(bytes.fromhex(h.decode()))
         sg = parse_sign(c["author"]) if c["author"] is not None else None
-        if sg is None or b"\r" in c["message"]:
+        if sg is None:
             return None
         msg = c["message"][:-1] if c["message"].endswith(b"\n") else c["message"]
         ents.append((h, sg["name"], sg["email"], sg["time"], sg["off"], msg))
